@@ -1,4 +1,4 @@
-CONSTANTS H = 1 W = 3 FixMarks = TRUE FixWide = TRUE AllowAmbiguous = FALSE
+CONSTANTS H = 1 W = 3 FixMarks = TRUE FixWide = TRUE FixDamage = TRUE AllowAmbiguous = FALSE
 FixClearKeepsFront = TRUE Threshold = 1 MaxQ = 3
 Alphabet <- AText
 INIT LInit
